@@ -4,7 +4,7 @@ A *World* numbers every object it meets (Fiber, Payload box, RankAttrs, the defa
 RankAttrs, Rank) in first-visit order and keeps the objects alive (so that id() values are
 never reused while the case runs).  A snapshot of one side is
 
-    [structure, labels, rank lists]          (layout of coq/Model/C10Check.v enc_snap)
+    [structure, labels, rank lists, owners]  (layout of coq/Model/C10Check.v enc_snap)
 
 structure : tree without identities; leaf = int, fiber = [[coordinate as list, sub] ...]
 labels    : numbers of the objects in visiting order (fiber, its private attrs object, that
@@ -45,14 +45,16 @@ def _visit_attrs(w, attrs, labels):
         labels.append(w.n(d))
 
 
-def _walk(w, p, labels):
+def _walk(w, p, labels, owners=None):
     from fibertree import Fiber, Payload
     if isinstance(p, Fiber):
         labels.append(w.n(p))
         _visit_attrs(w, p._rank_attrs, labels)
         if p._owner is not None:
             labels.append(w.n(p._owner))
-        return [[_coord(c), _walk(w, q, labels)] for c, q in zip(p.coords, p.payloads)]
+        if owners is not None:
+            owners.append(p._owner)
+        return [[_coord(c), _walk(w, q, labels, owners)] for c, q in zip(p.coords, p.payloads)]
     if isinstance(p, Payload):
         labels.append(w.n(p))
         v = p.value
@@ -66,10 +68,13 @@ def _walk(w, p, labels):
 
 
 def snap(w, x):
+    """[structure, labels, rank lists, owner of every fiber (DFS): -1 none, else the position of
+    the owner among the snapshot's own ranks (= their number for a foreign rank)]"""
     from fibertree import Tensor
     labels = []
+    owners = []
     if isinstance(x, Tensor):
-        st = _walk(w, x.getRoot(), labels)
+        st = _walk(w, x.getRoot(), labels, owners)
         rls = []
         for r in x.ranks:
             labels.append(w.n(r))
@@ -77,9 +82,13 @@ def snap(w, x):
             fl = [w.n(f) for f in r.fibers]
             labels += fl
             rls.append(fl)
-        return [st, labels, rls]
-    st = _walk(w, x, labels)
-    return [st, labels, []]
+        rids = [id(r) for r in x.ranks]
+    else:
+        st = _walk(w, x, labels, owners)
+        rls = []
+        rids = []
+    codes = [-1 if o is None else (rids.index(id(o)) if id(o) in rids else len(rids)) for o in owners]
+    return [st, labels, rls, codes]
 
 
 # ---- attribute values (compared in the harness; the observation carries a flag)
